@@ -69,6 +69,11 @@ var c05Corpus = []corpusEntry{
 		d := noteDoc(id, `,"summary":"`+strings.Repeat("lorem ipsum T3x dolor ", 80)+`"`)
 		return HTTPResponse("HTTP/1.0 200 OK", []string{apTypes[0], "Cache-Control: max-age=180"}, d, "\r\n"), d
 	}},
+	{"declares-an-enormous-length", true, func(id string) (*Response, string) {
+		// a Content-Length is only a claim; HTTP/1.0 bodies end where the connection ends
+		d := noteDoc(id, "")
+		return HTTPResponse("HTTP/1.0 200 OK", []string{"Content-Length: 1000000000000", apTypes[0]}, d, "\r\n"), d
+	}},
 	{"404", false, func(id string) (*Response, string) {
 		return HTTPResponse("HTTP/1.0 404 Not Found", []string{apTypes[0]}, `{"error":"Record not found"}`, "\r\n"), ""
 	}},
